@@ -28,7 +28,7 @@ C07|C08|C10)
 	$GO build -modfile="$d/go.mod" -o "$d/v/bin/worlda" ./cmd/worlda > "$d/build.txt" 2>&1 || { tail -5 "$d/build.txt"; echo "TROUBLE: build failed"; exit 2; }
 	VERIF_DIR="$d/v" "$d/v/bin/worlda" "$prop" "$tier" > "$out" 2>&1; code=$? ;;
 C27|C29|C30|C31|C32)
-	{ $GO test -modfile="$d/go.mod" -c -race -tags verif -o "$d/v/bin/worldb.test" ./worldb && $GO build -modfile="$d/go.mod" -tags verif -o "$d/v/bin/worldb-driver" ./cmd/worldb-driver; } > "$d/build.txt" 2>&1 || { tail -5 "$d/build.txt"; echo "TROUBLE: build failed"; exit 2; }
+	{ $GO test -modfile="$d/go.mod" -c -race -tags verif -o "$d/v/bin/worldb.test" ./worldb && $GO build -modfile="$d/go.mod" -tags verif -o "$d/v/bin/worldb-driver" ./cmd/worldb-driver && $GO build -modfile="$d/go.mod" -o "$d/v/bin/realprobe" ./cmd/realprobe; } > "$d/build.txt" 2>&1 || { tail -5 "$d/build.txt"; echo "TROUBLE: build failed"; exit 2; }
 	VERIF_DIR="$d/v" "$d/v/bin/worldb-driver" "$prop" "$tier" > "$out" 2>&1; code=$? ;;
 C35)
 	{ $GO build -modfile="$d/go.mod" -o "$d/v/bin/worldc" ./cmd/worldc && (cd "$d/repo" && $GO build -tags verif -o "$d/v/bin/shfmt-under-test" ./cmd/shfmt); } > "$d/build.txt" 2>&1 || { tail -5 "$d/build.txt"; echo "TROUBLE: build failed"; exit 2; }
